@@ -1,8 +1,8 @@
 """C08 -- concurrent transactions on a tree merge, serialize or conflict --
 nothing else.
 
-World: a base tree of a sampled shape is committed; 2 (quick) or 2-3
-(thorough) clients open connections at the same snapshot and each runs a
+World: a base tree of a sampled shape is committed; 2 or 3 (20 % quick, 40 %
+thorough) clients open connections at the same snapshot and each runs a
 short transaction (insert, delete, value change, setdefault, pop, update,
 clear -- with symbolic operations that aim at the dangerous spots of the
 *actual* base shape: delete the smallest key of leaf j, insert just above it,
@@ -143,7 +143,7 @@ def plan(rng, tier):
                     op = ["del" if mapping else "remove", k]
                     g.model.apply(op)
                     base.append(op)
-    n = 2 if tier == "quick" or rng.random() < 0.6 else 3
+    n = 3 if rng.random() < (0.2 if tier == "quick" else 0.4) else 2
     focus = rng.randrange(64) if rng.random() < 0.4 else None
     txns = [_txn(rng, g, dom.nkeys, dom.nvals, mapping, focus)
             for _ in range(n)]
